@@ -3,6 +3,8 @@ CONSTANTS
   Kinds = {"str", "arr", "bytes", "dict", "gen"}
   MaxLit = 2
   Depth = 0
+  Steps = {"map", "map2", "cat", "shift", "with", "without", "call"}
+  SmallIdx = FALSE
 INVARIANTS TypeOK Laws
 PROPERTIES AppendOnly
 CHECK_DEADLOCK FALSE
